@@ -100,4 +100,31 @@ func (p *Pipeline) Inherit(superSpec *supervisor.Spec, previousGeneration superv
   modifies p.superSpec, p.spec, p.filters, p.flow, p.resilience, gReloaded, gClosedAfter
   ensures old-generation-closed-only-after-the-new-one-is-built: gClosedAfter == ref(p) && gReloaded == ref(p)
   ensures new-spec-installed: p.superSpec == superSpec
+// ---- C02: accepted flows only jump forward, to exactly one node ----
+// a jump target t named at node i is valid iff it is END (and no later node is called END), or exactly one
+// later non-END node carries the alias t; a rejected spec panics (Validate turns the panic into an error)
+pred hitS(s *Spec, k int, a string) := s.Flow[k].FilterName != "END" && aliasOf(s.Flow, k) == a
+pred noneAfter(s *Spec, i int, a string) := forall k int :: i < k && k < len(s.Flow) ==> !hitS(s, k, a)
+pred oneAfter(s *Spec, i int, a string) := exists j int :: i < j && j < len(s.Flow) && hitS(s, j, a) && (forall k int :: i < k && k < len(s.Flow) && k != j ==> !hitS(s, k, a))
+pred validTarget(s *Spec, i int, t string) := t == "END" ? noneAfter(s, i, t) : oneAfter(s, i, t)
+
+func (s *Spec) ValidateJumpIf(specs map[string]filters.Spec)
+  flag allocates
+  requires s != nil
+  panics_only_if true
+  ensures accepted-jumps-go-forward-to-exactly-one-node: forall i int; r string :: 0 <= i && i < len(s.Flow) && s.Flow[i].FilterName != "END" && (r in s.Flow[i].JumpIf) ==> validTarget(s, i, s.Flow[i].JumpIf[r])
+  ensures every-flow-node-names-a-defined-filter: forall i int :: 0 <= i && i < len(s.Flow) && s.Flow[i].FilterName != "END" ==> (s.Flow[i].FilterName in specs) && specs[s.Flow[i].FilterName] != nil
+  invariant[1] -1 <= i && i < len(s.Flow) && validTargets != nil
+  invariant[1] count-zero: forall a string :: (validTargets[a] == 0) <==> (a != "END" && noneAfter(s, i, a))
+  invariant[1] count-one: forall a string :: (validTargets[a] == 1) <==> (a == "END" ? noneAfter(s, i, a) : oneAfter(s, i, a))
+  invariant[1] count-nonneg: forall a string :: validTargets[a] >= 0
+  invariant[1] done-so-far: forall i2 int; r string :: i < i2 && i2 < len(s.Flow) && s.Flow[i2].FilterName != "END" && (r in s.Flow[i2].JumpIf) ==> validTarget(s, i2, s.Flow[i2].JumpIf[r])
+  invariant[1] named-so-far: forall i2 int :: i < i2 && i2 < len(s.Flow) && s.Flow[i2].FilterName != "END" ==> (s.Flow[i2].FilterName in specs) && specs[s.Flow[i2].FilterName] != nil
+  invariant[2] 0 <= i && i < len(s.Flow) && validTargets != nil && s.Flow[i].FilterName != "END" && (s.Flow[i].FilterName in specs) && specs[s.Flow[i].FilterName] != nil
+  invariant[2] count-zero: forall a string :: (validTargets[a] == 0) <==> (a != "END" && noneAfter(s, i, a))
+  invariant[2] count-one: forall a string :: (validTargets[a] == 1) <==> (a == "END" ? noneAfter(s, i, a) : oneAfter(s, i, a))
+  invariant[2] count-nonneg: forall a string :: validTargets[a] >= 0
+  invariant[2] done-so-far: forall i2 int; r string :: i < i2 && i2 < len(s.Flow) && s.Flow[i2].FilterName != "END" && (r in s.Flow[i2].JumpIf) ==> validTarget(s, i2, s.Flow[i2].JumpIf[r])
+  invariant[2] named-so-far: forall i2 int :: i < i2 && i2 < len(s.Flow) && s.Flow[i2].FilterName != "END" ==> (s.Flow[i2].FilterName in specs) && specs[s.Flow[i2].FilterName] != nil
+  invariant[2] visited-valid: forall q int :: 0 <= q && q < idx$2 ==> validTarget(s, i, s.Flow[i].JumpIf[keys$2[q]])
 @*/
